@@ -68,11 +68,15 @@ def Verdict.render (id : String) (v : Verdict) : String :=
 
 def bad (why : String) : Verdict := { agree := false, prop := "PROP_NA", model := "?", why := s!"driver-cannot-parse:{why}" }
 
-/-- first failing clause wins -/
+/-- first failing clause wins - except that a failing clause whose name carries a bracketed qualifier (`…[tag>0x1F]`:
+    the expected-defect clauses that `known_findings.json` lists) gives way to any OTHER failing clause of the same
+    case: a listed finding must not hide an unlisted failure that happens on the same line -/
 def propOf (clauses : List (String × Bool)) : String × String :=
-  match clauses.find? (fun c => !c.2) with
-  | some (name, _) => ("PROP_FAIL", name)
-  | none => ("PROP_OK", "")
+  let failing := clauses.filter (fun c => !c.2)
+  match failing.find? (fun c => !c.1.endsWith "]"), failing.head? with
+  | some (name, _), _ => ("PROP_FAIL", name)
+  | none, some (name, _) => ("PROP_FAIL", name)
+  | none, none => ("PROP_OK", "")
 
 def mk (impl model : String) (clauses : List (String × Bool)) : Verdict :=
   let (p, why) := propOf clauses
